@@ -204,9 +204,10 @@ impl C04 {
         self.covers.lock().unwrap().insert(ci, v.clone());
         v
     }
-    fn l_lengths(size: usize) -> Vec<usize> {
-        // lengths next to the right one first, then the rest
-        let mut lens: Vec<usize> = Vec::new();
+    fn l_lengths(size: usize, max_body: usize) -> Vec<usize> {
+        // lengths that alias the right one modulo 2^8 / 2^16 first (as far as the header form can express them), then the
+        // lengths next to the right one, then the rest
+        let mut lens: Vec<usize> = [size + 0x100, size + 0x1_0000, size + 0x2_0000, size + 0xFFFF, size + 0x1_0001].into_iter().filter(|l| *l <= max_body).collect();
         for d in 1..=(size + 8) {
             if size >= d {
                 lens.push(size - d);
@@ -241,7 +242,7 @@ impl C04 {
                     let nf = f.fields.iter().filter(|x| matches!(x.kind, FKind::Enum { .. })).count().min(96) as u64;
                     let e = nf * Self::vals_per_field(tier);
                     let l = match fixed {
-                        Some(size) if k == 0 && f.plain.len() == size => (Self::l_lengths(size).len() as u64).min(match tier {
+                        Some(size) if k == 0 && f.plain.len() == size => (Self::l_lengths(size, crate::c02::max_expressible_body(case.exp, case.dir)).len() as u64).min(match tier {
                             Tier::Quick => 40,
                             Tier::Thorough => 400,
                         }),
@@ -486,7 +487,7 @@ impl Check for C04 {
         // L site?
         if let Some(size) = fixed {
             if f.plain.len() == size {
-                let lens = Self::l_lengths(size);
+                let lens = Self::l_lengths(size, crate::c02::max_expressible_body(case.exp, case.dir));
                 let pick = if enumerated {
                     lslot.map(|s| s as usize).filter(|s| *s < lens.len())
                 } else {
